@@ -219,7 +219,7 @@ def spec_follow(line, hout):
     they did (the property does not fix how many copies an operation makes, hence not which armed operation
     throws; it does fix that a throwing operation changes nothing and leaks nothing)"""
     t = line.split()
-    full = t[2] == "F"
+    full = t[2][0] == "F"
     ops = t[3:]
     ht = hout.split()
     sp = Spec()
@@ -240,7 +240,7 @@ def spec_follow(line, hout):
 def spec_line(line, rmove=False):
     """expected output tokens (probe counters reduced to the live count) of a case line"""
     t = line.split()
-    full = t[2] == "F"
+    full = t[2][0] == "F"
     ops = t[3:]
     sp = Spec(rmove=rmove)
     out = []
@@ -347,7 +347,52 @@ def enumerate_seqs(maxlen, tags, full, hist, minlen=1, armed=False):
     return out
 
 
-def random_seq(g, idx, maxlen, hist, TAGS=TAGS, churn=False):
+# members of the sized probe family of harness/h_any.cpp (SIZED_FAMILY): <bytes><n|x> = move constructor noexcept / not;
+# a.. = alignment 16, w.. = alignment 8
+SIZED = ["1n", "1x", "4n", "8n", "8x", "9n", "16n", "16x", "17n", "17x", "24n", "24x", "25n", "25x", "32n", "32x", "33n", "33x",
+         "40n", "48n", "48x", "56n", "56x", "57n", "64n", "64x", "a16n", "a32x", "w24n", "w24x"]
+
+
+def with_member(line, member):
+    """the same case with the probe types behind the tags p / t replaced by the sized member"""
+    t = line.split(" ", 3)
+    t[2] = t[2][0] + ":" + member
+    return " ".join(t)
+
+
+def pair_seqs(tags, hist):
+    """two containers in every combination of start states (each: empty / holding tags[0] / holding tags[1] / holding a
+    tags[0] object whose value was moved out), the third slot destroyed; then every pair of operations of the full
+    alphabet over the held types `tags`; all slots are viewed after every operation, so both containers are observed
+    after each of the two operations whichever of them it named"""
+    out = []
+    kinds = ["E", "P", "X", "M"]
+    tail = ["END", "c=0", "leak=0"]
+    for i0, k0 in enumerate(kinds):
+        for k1 in kinds[i0:]:
+            sp, toks, pref, code = Spec(), [], [], 40
+            for slot, kd in ((0, k0), (1, k1)):
+                code += 1
+                ops = {"E": ["df:%d" % slot], "P": ["cv:%d:r:%s:%d" % (slot, tags[0], code)],
+                       "X": ["cv:%d:l:%s:%d" % (slot, tags[1], code)],
+                       "M": ["cv:%d:r:%s:%d" % (slot, tags[0], code), "vc:%d:%s:m" % (slot, tags[0])]}[kd]
+                for tok in ops:
+                    r = sp.apply(tok)
+                    toks.append(tok)
+                    pref += [r, "c=%d" % sp.probes()] + sp.view()
+            head = "anyseq %d F %s" % (POOL, " ".join(toks))
+            for t1 in _alphabet(sp, 1, tags, True):
+                sp1 = sp.copy()
+                r1 = sp1.apply(t1, hist)
+                p1 = pref + [r1, "c=%d" % sp1.probes()] + sp1.view()
+                for t2 in _alphabet(sp1, 2, tags, True):
+                    sp2 = sp1.copy()
+                    r2 = sp2.apply(t2, hist)
+                    out.append(("%s %s %s" % (head, t1, t2), " ".join(p1 + [r2, "c=%d" % sp2.probes()] + sp2.view() + tail)))
+    return out
+
+
+def random_seq(g, idx, maxlen, hist, TAGS=TAGS, churn=False, member=None):
     """TAGS: held types used (a size class for the address-reuse runs); churn: mostly replace / destroy /
     re-create contents and cast, on few containers, so that freed holder blocks are reused at once"""
     r = g.r
@@ -412,7 +457,7 @@ def random_seq(g, idx, maxlen, hist, TAGS=TAGS, churn=False):
             tok = "!" + tok
         sp.apply(tok, hist)
         toks.append(tok)
-    return "anyseq %d F %s" % (POOL, " ".join(toks))
+    return "anyseq %d F%s %s" % (POOL, ":" + member if member else "", " ".join(toks))
 
 
 # --------------------------------------------------------------------------- running
@@ -585,7 +630,7 @@ def shrink(binary, line, key):
     """greedy removal of operations while the same kind of failure persists"""
     t = line.split()
     head, ops = t[:3], t[3:]
-    head[2] = "F"
+    head[2] = "F" + head[2][1:]
 
     def fails(ops_):
         ln = " ".join(head + ops_)
@@ -653,6 +698,20 @@ def run(ctx):
         t1 = time.time()
         lines = [c[0] for c in cases]
         res, dout = run_both({k: BIN[k] for k in builds}, lines, workers)
+        # the value-semantic specification written in Lean (specStepX on the abstract pool, driver entry `anyspec`) on the
+        # same lines (every line of a small block, every 5th of a large one): what it prints must be what the heap model prints
+        step_ = 1 if len(lines) <= 20000 else 5
+        sub = list(range(0, len(lines), step_))
+        t2 = time.time()
+        sout = vlib.run_driver(["anyspec" + lines[i][6:] for i in sub])
+        acc["tspec"] = acc.get("tspec", 0.0) + time.time() - t2
+        for i, so in zip(sub, sout):
+            acc["leanspec"] = acc.get("leanspec", 0) + 1
+            if mask(so) != mask(dout[i]):
+                st_, dt_ = mask(so).split(), mask(dout[i]).split()
+                j = next((x for x in range(min(len(st_), len(dt_))) if st_[x] != dt_[x]), min(len(st_), len(dt_)))
+                acc["corr_bad"].append(("lean-spec-vs-model", "token %d: Lean specification %s, Lean heap model %s" % (
+                    j, st_[j] if j < len(st_) else "-", dt_[j] if j < len(dt_) else "-"), lines[i], so, dout[i], cases[i][1], "", "asan", []))
         acc["trun"] += time.time() - t1
         acc["samples"].append(lines[len(lines) // 2])
         for b in builds:
@@ -782,6 +841,43 @@ def run(ctx):
                      "the throwing probe throws): all %d sequences of length 1..3%s; a throwing operation must change nothing (strong guarantee of "
                      "copy-and-swap, no half-constructed container) and leak nothing" % (n_thr, "" if ctx.quick() else " and of length 4 over {throwing probe}"))
         random_block(ctx.gen("any-throw"), 0, 150 if ctx.quick() else 2000, ["t", "p", "s"], None, "random-throwing[t,p,s]")
+        # ---- held types of every size class, with and without a noexcept move constructor, with a throwing copy constructor:
+        # the same reduced enumeration for every member of the sized probe family (the model does not depend on the member)
+        t1 = time.time()
+        base = enumerate_seqs(3, ["p", "t"], False, hist)
+        acc["tgen"] += time.time() - t1
+        n_sized = 0
+        members = SIZED if not ctx.quick() else SIZED      # every member in every run
+        cases = []
+        for mb in members:
+            cases += [(with_member(l, mb), w, "sized<=3[p,t]") for l, w in base]
+        n_sized = len(cases)
+        process("sized<=3[p,t]", cases, ("asan", "plain"))
+        gs = ctx.gen("any-sized")
+        cases = []
+        per = 6 if ctx.quick() else 60
+        for mi, mb in enumerate(members):
+            for i in range(per):
+                ln = random_seq(gs, mi * per + i, 40, hist, ["t", "p", "s", "i"], None, member=mb)
+                cases.append((ln, spec_line(ln), "random-sized"))
+        process("random-sized", cases)
+        rules.append("held types of every size class: for each of the %d members of a family of instance-counted probes of exactly 1, 4, 8, 9, 16, 17, "
+                     "24, 25, 32, 33, 40, 48, 56, 57, 64 bytes (alignment 1; 16 and 32 bytes with alignment 16; 24 bytes with alignment 8), each with a "
+                     "noexcept and with a potentially throwing move constructor, each with a variant whose copy constructor throws on demand: all %d "
+                     "reduced-alphabet sequences of length 1..3 over the two variants (%d cases) and %d random sequences of length <= 40 with armed "
+                     "operations" % (len(members), len(base), n_sized, per * len(members)))
+        # ---- every pair of operations on two containers, both observed after each
+        comp = (["t"] + others)[ctx.seed % 5] if ctx.quick() else None
+        n_pairs = 0
+        for o in ([comp] if comp else ["t"] + others):
+            t1 = time.time()
+            ps = pair_seqs(["p", o], hist)
+            acc["tgen"] += time.time() - t1
+            n_pairs += len(ps)
+            process("pairs[p,%s]" % o, [(l, w, "pairs") for l, w in ps], ("asan", "plain") if o in ("i", "d", "t") else ("asan",))
+        rules.append("pairs: two containers in each of the 10 unordered combinations of start states {empty, holding a probe, holding a %s, holding a "
+                     "probe whose value was moved out} (third slot destroyed), then every pair of operations of the full alphabet over these two held "
+                     "types, all slots viewed after every operation: %d sequences" % ("T (T = throwing probe, string, matrix, int, double in turn)" if not comp else TAG_NAME[comp], n_pairs))
         # address reuse: held types of one allocation size class (holder<int|double|probe>: 16 bytes,
         # holder<string|MatrixXd>: 40 / 32 bytes, one malloc bin each), so that a new holder of another type
         # lands on the block of a destroyed one.  Only meaningful without ASan's quarantine.
@@ -868,6 +964,7 @@ def run(ctx):
         "sanitizer_crashes": sum(1 for p in prop_bad if p[0].startswith("crash")),
         "generation_s": round(acc["tgen"], 2), "harness_and_driver_s": round(acc["trun"], 2),
         "mechanism_only_differences": len(mech),
+        "lean_spec_lines_compared_with_model": acc.get("leanspec", 0), "lean_spec_driver_s": round(acc.get("tspec", 0.0), 2),
     })
     if mech:
         line, h, d = mech[0]
